@@ -48,6 +48,8 @@ Proof.
       + inversion Es; subst. destruct (single_mode_ignores s0 H0) as (_ & T & _). rewrite T. exact H0.
       + inversion Es; subst. destruct (single_mode_ignores s0 H0) as (_ & _ & T). rewrite T. exact H0.
       + inversion Es; subst. exact H0.
+      + inversion Es; subst. unfold act_select_raw_item. rewrite H0. exact H0.
+      + inversion Es; subst. unfold act_select_raw_item. rewrite H0. exact H0.
     - destruct (other_ops_keep_selected s0 o s2 Ha Es) as [_ H2]. congruence. }
   pose proof (Hm ops (init rev false) s eq_refl E) as M. split; [exact M|].
   apply (run_SelInv ops _ _ (init_SelInv rev false) E). exact M.
